@@ -248,6 +248,10 @@ def run(repo: Repo, rep: Report, tier: str) -> None:
     from .shared import identifier_resolvers as _idres17
     _idres17(repo, rep, "C17-R5")
 
+    # ---------------- R6 ---------------------------------------------------------------
+    from .shared import borrow as _borrow17
+    _borrow17(repo, rep, "C01", "C01-R10", "C17-R6", "library functions written with `cond : <constant expression>` return that constant: an inlined literal output is not a copy-count output", floor=2)
+
 
 
 def _split_entries(s: str) -> list[str]:
